@@ -33,6 +33,7 @@ the serializer's code.  Import-free beyond the model, so the driver evaluates ev
                      for the caller, is not on the wire and does not count.)
 * `noVoidToRequired`: no union value inside an A-value sits on a tag that is Void in A and has a non-nullable type
                      in B (the direction the guide does not promise).
+* `tightDoc`       : message level: `knownDoc` in the form encoders write (a Void tag comes as the bare tag object).
 * `knownDoc`       : message level: a JSON document contains nothing that A does not know at type `t` (every
                      object member is a field of the struct it is read as, every tag / subtype is known, Void
                      tags come bare).
@@ -85,7 +86,7 @@ def fieldSub (ρ : Rho) (f g : FieldDef) : Bool :=
 /-- a field only the newer spec has: optional (`T?`) or with a default (and the decoder leaves it unset when the
 member is absent: the validator supplies no implicit value of its own) -/
 def newFieldOk (B : Env) (g : FieldDef) : Bool :=
-  g.attrNullable || (g.dflt.isSome && !hasDefault B g.ty)
+  (g.attrNullable && g.ty.flags.nullable) || (g.dflt.isSome && !hasDefault B g.ty)
 
 abbrev SubEntry := List String × String × Bool
 
@@ -222,7 +223,7 @@ def lift (ρ : Rho) (B : Env) (t : PTy) (v : PyVal) : PyVal :=
   | .union _ tag p => (match t with
     | .union _ cls => (match publicTag? B cls tag with
       | some td => if isVoidT td.ty then .union cls tag .none else .union cls tag (lift ρ B td.ty p)
-      | none => v)
+      | none => .union cls tag p)
     | _ => v)
   | _ => v
 def liftList (ρ : Rho) (B : Env) (t : PTy) : List PyVal → List PyVal
@@ -373,6 +374,100 @@ def knownMembers (A : Env) (tbl : List (String × PTy)) : List (String × JVal) 
     (match tbl.find? (·.1 == k) with
      | some (_, ft) => knownDoc A ft x
      | none => k.startsWith ".tag") && knownMembers A tbl rest
+end
+
+mutual
+/-- the document is in the form an encoder writes, with nothing A does not know: `knownDoc`, and every Void tag comes as
+the bare `{".tag": tag}` (a decoder also tolerates `tag: null` there; an encoder never writes it) -/
+def tightDoc (A : Env) (t : PTy) (j : JVal) : Bool :=
+  if isVoidT t then (match j with | .null => true | _ => false) else
+  match j with
+  | .arr xs => (match t with | .list _ item _ _ => tightList A item xs | _ => true)
+  | .obj kvs => (match t with
+    | .map _ _ vt => tightVals A vt kvs
+    | .struct _ cls => tightMembers A (structTable A cls) kvs
+    | .tree _ cls => (match jsonLookup ".tag" kvs, A.struct? cls with
+      | some (.str tag), some s => (match (s.subtypes.getD []).find? (fun e => e.1 == [tag]) with
+        | some (_, sc, false) => tightMembers A (structTable A sc) kvs
+        | _ => false)
+      | _, _ => true)
+    | .union _ cls => (match jsonLookup ".tag" kvs with
+      | some (.str tag) => (match publicTag? A cls tag with
+        | some td =>
+          if isVoidT td.ty then kvs.length == 1
+          else (match td.ty with
+            | .struct _ sc => tightMembers A (structTable A sc) kvs
+            | ft => tightMembers A [(tag, ft.withFlags {})] kvs)
+        | none => false)
+      | _ => true)
+    | _ => true)
+  | .str tag => (match t with
+    | .union _ cls => (publicTag? A cls tag).isSome
+    | _ => true)
+  | _ => true
+def tightList (A : Env) (t : PTy) : List JVal → Bool
+  | [] => true
+  | x :: xs => tightDoc A t x && tightList A t xs
+def tightVals (A : Env) (t : PTy) : List (String × JVal) → Bool
+  | [] => true
+  | (_, x) :: rest => tightDoc A t x && tightVals A t rest
+def tightMembers (A : Env) (tbl : List (String × PTy)) : List (String × JVal) → Bool
+  | [] => true
+  | (k, x) :: rest =>
+    (match tbl.find? (·.1 == k) with
+     | some (_, ft) => tightDoc A ft x
+     | none => k == ".tag") && tightMembers A tbl rest
+end
+
+/-- the tag is Void in A and B gave it a non-nullable type: the one direction the guide does not promise -/
+def voidToRequired (ρ : Rho) (A B : Env) (cls tag : String) : Bool :=
+  match publicTag? A cls tag with
+  | some ta =>
+    isVoidT ta.ty && (match (ρ.toB cls).bind fun cb => publicTag? B cb tag with
+      | some tb => !(isVoidT tb.ty || tb.ty.flags.nullable)
+      | none => false)
+  | none => false
+
+mutual
+/-- message level `noVoidToRequired`: no union object / symbol in the document (read at A's type `t`) names a tag that is
+Void in A and has a non-nullable type in B -/
+def nvrDoc (ρ : Rho) (A B : Env) (t : PTy) (j : JVal) : Bool :=
+  match j with
+  | .arr xs => (match t with | .list _ item _ _ => nvrList ρ A B item xs | _ => true)
+  | .obj kvs => (match t with
+    | .map _ _ vt => nvrVals ρ A B vt kvs
+    | .struct _ cls => nvrMembers ρ A B (structTable A cls) kvs
+    | .tree _ cls => (match jsonLookup ".tag" kvs, A.struct? cls with
+      | some (.str tag), some s => (match (s.subtypes.getD []).find? (fun e => e.1 == [tag]) with
+        | some (_, sc, false) => nvrMembers ρ A B (structTable A sc) kvs
+        | _ => true)
+      | _, _ => true)
+    | .union _ cls => (match jsonLookup ".tag" kvs with
+      | some (.str tag) => !voidToRequired ρ A B cls tag && (match publicTag? A cls tag with
+        | some td =>
+          if isVoidT td.ty then true
+          else (match td.ty with
+            | .struct _ sc => nvrMembers ρ A B (structTable A sc) kvs
+            | ft => nvrMembers ρ A B [(tag, ft.withFlags {})] kvs)
+        | none => true)
+      | _ => true)
+    | _ => true)
+  | .str tag => (match t with
+    | .union _ cls => !voidToRequired ρ A B cls tag
+    | _ => true)
+  | _ => true
+def nvrList (ρ : Rho) (A B : Env) (t : PTy) : List JVal → Bool
+  | [] => true
+  | x :: xs => nvrDoc ρ A B t x && nvrList ρ A B t xs
+def nvrVals (ρ : Rho) (A B : Env) (t : PTy) : List (String × JVal) → Bool
+  | [] => true
+  | (_, x) :: rest => nvrDoc ρ A B t x && nvrVals ρ A B t rest
+def nvrMembers (ρ : Rho) (A B : Env) (tbl : List (String × PTy)) : List (String × JVal) → Bool
+  | [] => true
+  | (k, x) :: rest =>
+    (match tbl.find? (·.1 == k) with
+     | some (_, ft) => nvrDoc ρ A B ft x
+     | none => true) && nvrMembers ρ A B tbl rest
 end
 
 end StoneVerif.Rt.Compat
